@@ -213,7 +213,11 @@ class SymmetryTranslator:
                     for pred in potential_equalities[index]:
                         used_variables.update(collect_ast(pred.atom.symbol.arguments[pos], "Variable"))
                         used_uneq_variables[index].update(collect_ast(pred.atom.symbol.arguments[pos], "Variable"))
-            if len((global_vars_inside_body(lits) | global_vars) & used_variables) == 0:
+            # every occurrence outside the group counts, also inside aggregates and conditional literals
+            rest_variables: set[AST] = set()
+            for lit in lits:
+                rest_variables.update(collect_ast(lit, "Variable"))
+            if len((rest_variables | global_vars) & used_variables) == 0:
                 # built ccs, in a cc, only one comparison can be improved
                 g = nx.Graph()
                 for index1 in index_subset:
@@ -376,7 +380,9 @@ class SymmetryTranslator:
                 for t in elem.terms:  # the tuple observes its variables: they must not lose half of their values
                     global_vars.update(collect_ast(t, "Variable"))
                 for symmetry_bundle in list(
-                    self.largest_symmetric_group(condition, global_vars, list(elem.terms) + list(stm.body), True)
+                    self.largest_symmetric_group(
+                        condition, global_vars, list(elem.terms) + [b for b in stm.body if b != blit], True
+                    )
                 ):
                     log.info(f"Replace atleast2 in aggregate {str(blit)}.")
                     for lit in symmetry_bundle.remove_lits():
